@@ -396,7 +396,7 @@ class dir_archive(archive):
     __ne__.__doc__ = dict.__ne__.__doc__
     def __delitem__(self, key):
         try:
-            memo = {key: None}
+            memo = {key: None} if self.__contains__(key) else {}
             self._rmdir(key)
         except:
             memo = {}
